@@ -346,11 +346,13 @@ class DictDepth(Case):
             return real(x)
 
         g = mod.__dict__
+        real = getattr(real, "__pyvc_real__", real)
+        stub.__pyvc_real__ = real
+        # the stub stays bound after the call: a comprehension over the symbolic values is answered lazily
+        # (the recursive calls happen while the obligations are built); for anything but a ghost child the
+        # stub is the real function
         g["dict_depth"] = stub
-        try:
-            return real(GhostDict(e.K))
-        finally:
-            g["dict_depth"] = real
+        return real(GhostDict(e.K))
 
     def post_global(self, e, res):
         r = res.value
